@@ -60,7 +60,7 @@ def plan(tier, seed):
 
 
 def mandatory(tier):
-    return [f"model/{m}" for m in MODELS] + [f"op/{o}" for o in OPS] + [f"kind/{k}" for k in X.KINDS] + [f"grid_/at_new_samples/{k}" for k in ("resize", "other_domain", "same_shape")] + ["first_read_is_inverse", "image_transformer_reads_first", "pointset_transformer_reads_first", "condition_/via_transformer", "update/via_transformer", "inplace/params.data"] + [f"svf_view/{v}" for v in VIEWS] + ["svf_view/grid_/flip_align_corners", "fit/parameters", "fit/finer", "linked_inverse/data_", "linked_inverse/inplace", "linked_inverse/kind/parameter", "linked_inverse/kind/buffer"]
+    return [f"model/{m}" for m in MODELS] + [f"op/{o}" for o in OPS] + [f"kind/{k}" for k in X.KINDS] + [f"grid_/at_new_samples/{k}" for k in ("resize", "other_domain", "same_shape")] + ["first_read_is_inverse", "image_transformer_reads_first", "pointset_transformer_reads_first", "condition_/via_transformer", "update/via_transformer", "condition/copy", "inplace/params.data"] + [f"svf_view/{v}" for v in VIEWS] + ["svf_view/grid_/flip_align_corners", "fit/parameters", "fit/finer", "linked_inverse/data_", "linked_inverse/inplace", "linked_inverse/kind/parameter", "linked_inverse/kind/buffer"]
 
 
 class Subject:
@@ -331,6 +331,19 @@ def history(ctx, rng, info, subj, i):
                 first_read_is_inverse(ctx, rng, subj, x, hist, info, desc)
                 compare_fresh(ctx, subj, x, hist, info, "disp")
                 compare_fresh(ctx, subj, x, hist, info, "tensor")
+                # the copying form, positional + keyword and keyword-only: the copy holds the new conditioning and
+                # evaluates with it, the transform it was taken from keeps its own (also through a transformer)
+                held = t.condition()
+                for cargs, ckw in (((0.77,), {"shift": 0.3}), ((), {"scale": 0.6, "shift": -0.2})):
+                    sources = [("transform", t)] + ([("transformer", mapper)] if mapper is not None else [])
+                    for sname, src in sources:
+                        c = src.condition(*cargs, **ckw)
+                        ok = ctx.true("condition_copy_is_a_new_object_holding_the_new_conditioning", c is not src and not isinstance(c, tuple) and (tuple(c.condition()[0]), dict(c.condition()[1])) == (cargs, ckw), key=f"condition/copy/{sname}", got=repr(c.condition() if hasattr(c, "condition") and not isinstance(c, tuple) else c)[:200], args=[list(cargs), ckw], history=list(hist), **info)
+                        ctx.true("condition_copy_leaves_source_conditioning", (tuple(t.condition()[0]), dict(t.condition()[1])) == (tuple(held[0]), dict(held[1])), key=f"condition/copy/{sname}/source", history=list(hist), **info)
+                        if ok and sname == "transform":
+                            compare_fresh(ctx, Subject(c, subj.name, subj.kind, subj.extra, subj.box), x, hist + [{"op": "condition(copy)"}], info, "call")
+                    compare_fresh(ctx, subj, x, hist, info, "call")
+                ctx.bucket("condition/copy")
             elif op == "reset_parameters":
                 if subj.kind == "callable":
                     continue  # documented: predicted parameters come back with the next update
